@@ -242,6 +242,41 @@ class _NPX:
         return bool(onp.all(r))
 
     @staticmethod
+    def _truth(v):
+        if isinstance(v, SymBool):
+            return v
+        if px.is_sym(v):
+            return SymBool(v.z != 0)          # truthiness of a number: non-zero
+        return bool(v)
+
+    @staticmethod
+    def any(a, axis=None):
+        """numpy.any on numbers: true iff some entry is NON-ZERO (a symbolic boolean on proxies: a Python `if` on it forks)"""
+        if not (px.is_sym(a) or px._has_sym(a)):
+            return onp.any(a) if axis is None else onp.any(a, axis=axis)
+        r = False
+        for v in onp.asarray(a, dtype=object).reshape(-1):
+            t = NPX._truth(v)
+            r = t if r is False else (r if t is False else (True if (t is True or r is True) else (r | t)))
+        return r
+
+    @staticmethod
+    def all(a, axis=None):
+        if not (px.is_sym(a) or px._has_sym(a)):
+            return onp.all(a) if axis is None else onp.all(a, axis=axis)
+        r = True
+        for v in onp.asarray(a, dtype=object).reshape(-1):
+            t = NPX._truth(v)
+            r = t if r is True else (r if t is True else (False if (t is False or r is False) else (r & t)))
+        return r
+
+    @staticmethod
+    def count_nonzero(a):
+        if not (px.is_sym(a) or px._has_sym(a)):
+            return onp.count_nonzero(a)
+        raise px.Unsupported('count_nonzero of a symbolic array')
+
+    @staticmethod
     def array_equal(a, b):
         if not (px._has_sym(a) or px._has_sym(b)):
             return bool(onp.array_equal(a, b))
